@@ -29,7 +29,7 @@ impl Prop for C07 {
             lookahead_pct: gen::draw_lookahead_pct(rng),
             disjoint_types: false,
             inputs: (1, 2),
-            input_len: (0, 40),
+            input_len: gen_input_len(rng, 40),
             newline_rich: rng.chance(1, 3),
             allow_nullable: true,
             allow_empty_mode: true,
@@ -45,7 +45,7 @@ impl Prop for C07 {
         gw.world
     }
     fn new_gen<'w>(&self, world: &'w World, rng: &mut Rng) -> Box<dyn Gen + 'w> {
-        Box::new(Gen07 { m: GenModel::new(world, 2, 3), len: rng.range(8, 60) })
+        Box::new(Gen07 { m: GenModel::new(world, 2, 3), len: gen_history_len(rng, 8, 60) })
     }
     fn new_exec<'w>(&self, world: &'w World) -> Box<dyn Exec + 'w> {
         Box::new(Exec07 { world, scanners: vec![], iters: vec![] })
